@@ -74,6 +74,12 @@ class Part:
     def truth(self, ctx, r):
         return True
 
+    def attr_persisted(self, ctx, r):
+        # whether the last request on the connection was persistent: arbitrary (the idle close must not depend on it)
+        if not hasattr(self, "_persisted"):
+            self._persisted = ctx.fresh("bool", self.name + ".persisted")
+        return self._persisted
+
     def m_close(self, ctx, r, a, k):
         self.closed += 1
         self.log.append((self.kind + ".close", self.name))
